@@ -112,14 +112,21 @@ class Ctx:
             return False
         if "declaration uses 'sorry'" in out + err or "declaration uses `sorry`" in out + err:
             self.proof_failures.append({"module": module, "error": "a declaration uses sorry", "log": (out + err)[-2000:]})
-        # forbidden tokens in every file of the development
-        for root, _, files in os.walk(os.path.join(LEAN, "Fv")):
-            for f in files:
-                if f.endswith(".lean"):
-                    src = strip_lean_comments(open(os.path.join(root, f)).read())
-                    m = BAD_TOKENS.search(src)
-                    if m:
-                        self.proof_failures.append({"module": os.path.join(root, f), "error": "forbidden token " + m.group(0)})
+        # forbidden tokens in every file the property module (transitively) imports from this development
+        todo, seen_files = [module, *extra_modules], set()
+        while todo:
+            mod = todo.pop()
+            path = os.path.join(LEAN, *mod.split(".")) + ".lean"
+            if path in seen_files or not os.path.exists(path):
+                continue
+            seen_files.add(path)
+            raw = open(path).read()
+            src = strip_lean_comments(raw)
+            m = BAD_TOKENS.search(src)
+            if m:
+                self.proof_failures.append({"module": path, "error": "forbidden token " + m.group(0).strip()})
+            todo += re.findall(r"^import\s+(Fv\.[A-Za-z0-9_.]+)", src, re.M)
+        self.extra["lean_files_scanned"] = len(seen_files)
         audit = os.path.join(self.rundir, "Audit.lean")
         with open(audit, "w") as fh:
             fh.write("import %s\n" % module)
